@@ -255,10 +255,10 @@ def enc_cases(ck):
         if len(bw) % 2 and d in DT_COMPLEX:
             bw.append(0)
         cases.append({"dtype": d, "shape": [len(bw) // comps(d)], "words": bw})
-        n = ck.pick(2000, 200000)
+        n = ck.pick(2000, 600000)
         cases.append({"dtype": d, "shape": [n], "words": rand_words(rng, d, n * comps(d))})
     # strings
-    for _ in range(ck.pick(60, 4000)):
+    for _ in range(ck.pick(60, 12000)):
         cases.append(rand_spec(rng, "str", layout="C"))
     cases.append({"dtype": "str", "shape": [len(ALPHABET)], "strs": [[c, 0x61] for c in ALPHABET]})
     # all shapes x all dtypes
@@ -475,7 +475,7 @@ def run_attr_correspondence(ck, q):
 
     from translator.c10_tables import CLASSES
 
-    vals = value_universe(ck.rng, ck.pick(40, 1500))
+    vals = value_universe(ck.rng, ck.pick(40, 4000))
     g = results(y=op.const(1))
     vals.append(({"k": "graph"}, g))
     reqs, real = [], []
@@ -546,6 +546,273 @@ def run_attr_correspondence(ck, q):
     ck.cov["attr_correspondence"] = {"cases": len(reqs), "accepted": n_ok, "rejected": n_err,
                                      "outside_model_domain": n_skipped, "mismatches": mism}
     return mism
+
+
+# ------------------------------------------------------- tie H (2b): float rounding on the attribute path
+def boundary_doubles(rng, n_random):
+    """binary64 patterns around everything that matters for (float)double."""
+    out = []
+    d2b = lambda x: struct.unpack("<Q", struct.pack("<d", x))[0]  # noqa: E731
+    for x in (0.0, -0.0, 0.1, 1 / 3, 1.0, 16777216.0, 16777217.0, 16777219.0, 1e40, -1e40, 1e-50, 3.4028234663852886e38,
+              3.4028235677973366e38, 2.0**-126, 2.0**-149, 2.0**-150, 2.0**-151, 2.0**127, 2.0**128, float("inf"), float("-inf")):
+        b = d2b(x)
+        out += [b, b + 1, b - 1 if b else b, b ^ (1 << 63)]
+    out += [0x7FF0000000000001, 0x7FF8000000000000, 0xFFF4000012345678, 0x7FF00000FFFFFFFF, 0x7FFFFFFFFFFFFFFF, 1, 0x000FFFFFFFFFFFFF]
+    for _ in range(n_random):
+        kind = rng.randrange(5)
+        sign = rng.getrandbits(1) << 63
+        if kind == 0:      # exactly half way between two float32 values (normal range), and one ulp either side
+            e = rng.randrange(897, 1151)
+            m = (rng.getrandbits(23) << 29) | (1 << 28)
+            b = sign | (e << 52) | m
+            out += [b, b + 1, b - 1]
+        elif kind == 1:    # the subnormal range of float32 and below
+            e = rng.randrange(840, 898)
+            out.append(sign | (e << 52) | (rng.getrandbits(52) if rng.random() < 0.7 else (rng.getrandbits(20) << 32)))
+        elif kind == 2:    # around overflow
+            out.append(sign | (rng.randrange(1148, 1156) << 52) | (rng.choice([0, (1 << 52) - 1, 0xFFFFFFE000000, 0xFFFFFFF000000]) ^ rng.getrandbits(3)))
+        elif kind == 3:    # NaN payloads
+            out.append(sign | (0x7FF << 52) | rng.randrange(1, 1 << 52))
+        else:
+            out.append(rng.getrandbits(64))
+    return out
+
+
+def run_float_correspondence(ck):
+    import numpy as np
+
+    rng = ck.rng
+    bits = boundary_doubles(rng, ck.pick(20000, 1500000))
+    got = ck.driver().ask_many("C10", [{"op": "r32", "bits": bits}])[0]["f32"]
+    with np.errstate(all="ignore"):
+        exp = np.array(bits, dtype=np.uint64).view(np.float64).astype(np.float32).view(np.uint32).tolist()
+    bad = [(hex(b), hex(g), hex(e)) for b, g, e in zip(bits, got, exp) if not same_words("float32", [g], [e])]
+    ints = [0, 1, -1, 2**53, 2**53 + 1, 2**53 + 2, 2**53 + 3, -(2**53 + 1), 2**63, 2**64 - 1, 2**1023,
+            2**1024 - 2**970 - 1, 2**1024 - 2**970, 2**1024, 10**400, 2**52 + 1, 2**100 + 2**47, 2**100 + 2**47 + 1]
+    ints += [rng.getrandbits(rng.randrange(1, 1100)) * rng.choice([1, -1]) for _ in range(ck.pick(2000, 40000))]
+    got_i = ck.driver().ask_many("C10", [{"op": "i2d", "ints": ints}])[0]["f64"]
+
+    def real(n):
+        try:
+            return struct.unpack("<Q", struct.pack("<d", float(n)))[0]
+        except OverflowError:
+            return None
+
+    bad_i = [(n, g, real(n)) for n, g in zip(ints, got_i) if g != real(n)]
+    ck.count(("float-corr", "r32"), len(bits))
+    ck.count(("float-corr", "i2d"), len(ints))
+    for b in bad[:3]:
+        ck.broken("correspondence", "C10 r32 vs numpy float64->float32", f"double {b[0]}: model {b[1]} numpy {b[2]}")
+    for b in bad_i[:3]:
+        ck.broken("correspondence", "C10 i2d vs Python float(int)", f"int {str(b[0])[:60]}: model {b[1]} python {b[2]}")
+    ck.cov["float_correspondence"] = {"doubles": len(bits), "ints": len(ints), "mismatches": len(bad) + len(bad_i)}
+
+
+# ------------------------------------------------- tie H (4): the embedding path (const / initializer / constant)
+def py_values(rng, extra):
+    """An exhaustive small universe of values a user hands to const(): -> [(json for the model, python value)]"""
+    import numpy as np
+
+    def sc(v):
+        if isinstance(v, bool):
+            return {"k": "bool", "v": v}
+        if isinstance(v, int):
+            return {"k": "int", "v": v}
+        if isinstance(v, float):
+            return {"k": "float", "bits": struct.unpack("<Q", struct.pack("<d", v))[0]}
+        return {"k": "str", "v": [ord(c) for c in v]}
+
+    bools = [True, False]
+    ints = [0, 1, -1, 2**31, 2**63 - 1, -2**63, 2**63, 2**64 - 1, 2**64, -2**63 - 1, 2**53 + 1, 10**400]
+    floats = [0.0, -0.0, 1.5, 0.1, float("nan"), float("inf"), 1e40, 5e-324]
+    strs = ["", "a", "ü", "a\x00", "\x00", "a\x00b", "日本\U0001F600"]
+    scalars = bools + ints + floats + strs
+    out = [(sc(v), v) for v in scalars]
+    # numpy scalars of every element type
+    for d in DT_ALL:
+        if d == "str":
+            for t in ("x", "ü\x00", ""):
+                out.append(({"k": "npscalar", "dtype": "str", "words": [], "str": [ord(c) for c in t]}, np.str_(t)))
+            continue
+        for _ in range(2):
+            ws = rand_words(rng, d, comps(d))
+            arr = make_array({"dtype": d, "shape": [], "words": ws})
+            out.append(({"k": "npscalar", "dtype": d, "words": ws, "str": []}, arr[()]))
+    # arrays (incl. 0-d, empty, non-contiguous)
+    for d in DT_ALL:
+        for shape in ([], [0], [2, 2]):
+            spec = rand_spec(rng, d, shape, layout=rng.choice(["C", "F", "strided"]))
+            arr = make_array(spec)
+            out.append(({"k": "array", **{k: v for k, v in spec_of(arr).items() if k != "layout"}}, arr))
+    # all lists of length <= 2 over a base set, plus seeded longer ones
+    base = [True, False, 0, -1, 2**63 - 1, 2**63, 2**64 - 1, 2**64, -2**63 - 1, 1.5, -0.0, float("nan"), "a", "ü\x00", ""]
+    lists = [[]] + [[a] for a in base] + [[a, b] for a in base for b in base]
+    for _ in range(extra):
+        lists.append([rng.choice(base) for _ in range(rng.randrange(3, 6))])
+    for l in lists:
+        out.append(({"k": "list", "items": [sc(x) for x in l]}, list(l)))
+    out.append(({"k": "list", "items": [sc(x) for x in (1, 2)]}, (1, 2)))
+    small = [True, 0, -1, 2**63, 1.5, "a"]
+    nests = [[[a], [b]] for a in small for b in small] + [[[a, b]] for a in small for b in small]
+    nests += [[[1], [2, 3]], [[], []], [[1, 2], [3, 4.5]], [[], [1]], [["a", "b"], ["c", "d\x00"]]]
+    for n in nests:
+        out.append(({"k": "nested", "rows": [[sc(x) for x in r] for r in n]}, [list(r) for r in n]))
+    return out
+
+
+def _real_embedded(fn_name, make, route, args_of=None):
+    """Run a real route; ('err', class) or ('ok', {type, tensor(words), prop})."""
+    import spox.opset.ai.onnx.v17 as op
+
+    try:
+        var = make()
+    except Exception as e:  # noqa: BLE001
+        return ("err", type(e).__name__)
+    res = {"type": None, "tensor": None, "prop": None, "route": None}
+    t = var.type
+    res["type"] = (canon_name(t.dtype), list(t.shape))
+    if route == "constant":
+        a = _first_attr_tensor(_build_bytes(var), "Constant", "value")
+        res["route"] = "constant" if a is not None and a["type"] == W.ATTR_TYPE["TENSOR"] else "?"
+        res["tensor"] = W.tensor_typed(a["t"]) if a else None
+    else:
+        args = (var,) if fn_name == "arg_default" else ()
+        g = W.fields(W.graph_of_model(_build_bytes(op.identity(var), args, ["x"] if args else None)))
+        inits = [v for f, _, v in g if f == W.GRAPH_INITIALIZER]
+        res["route"] = "initializer" if len(inits) == 1 else "?"
+        res["tensor"] = W.tensor_typed(inits[0]) if inits else None
+    if fn_name != "arg_default":
+        try:
+            res["prop"] = peek("Var._get_value", lambda: _obs_array(var._get_value()))
+        except ValueError:
+            res["prop"] = {"dtype": "<no propagated value>", "shape": [], "data": []}
+    return ("ok", res)
+
+
+def _cmp_embedded(m, r):
+    """model outcome json vs real outcome -> None | description"""
+    if "unmodelled" in m:
+        return None
+    if r[0] == "err":
+        name = r[1] if r[1] in ("TypeError", "AttributeError", "ValueError") else "other"
+        return None if m.get("err") == name else f"real raises {r[1]}, model {m.get('err') or 'accepts'}"
+    if "ok" not in m:
+        return f"real accepts, model raises {m.get('err')}"
+    mo, ro = m["ok"], r[1]
+    if mo["route"] != ro["route"]:
+        return f"route: model {mo['route']} real {ro['route']}"
+    if [mo["type"]["dtype"], mo["type"]["shape"]] != [ro["type"][0], ro["type"][1]]:
+        return f"Var.type: model {mo['type']} real {ro['type']}"
+    for k in ("data_type", "dims", "int32_data", "int64_data", "uint64_data", "double_data", "string_data"):
+        if mo["proto"][k] != ro["tensor"][k]:
+            return f"tensor field {k}: model {str(mo['proto'][k])[:60]} real {str(ro['tensor'][k])[:60]}"
+    if not same_words("float32", mo["proto"]["float_data"], ro["tensor"]["float_data"]):
+        return "tensor field float_data"
+    if ro["prop"] is not None and ro["prop"] is not UNOBS and mo["prop"] is not None:
+        mp = mo["prop"]
+        data = mp["words"] if mp["dtype"] != "str" else [list("".join(map(chr, s)).encode("utf-8")) for s in mp["strs"]]
+        if mp["dtype"] != ro["prop"]["dtype"] or mp["shape"] != ro["prop"]["shape"] or not (
+                data == ro["prop"]["data"] if mp["dtype"] == "str" else same_words(mp["dtype"], data, ro["prop"]["data"])):
+            return f"propagated value: model {str(mp)[:80]} real {str(ro['prop'])[:80]}"
+    return None
+
+
+def run_embed_correspondence(ck, q):
+    import numpy as np
+
+    import spox.opset.ai.onnx.v17 as op
+
+    fut_init = _imp("spox._future", "initializer")
+    g_init = _imp("spox._graph", "initializer")
+    g_args = _imp("spox._graph", "arguments")
+    vals = py_values(ck.rng, ck.pick(60, 6000))
+    reqs, real = [], []
+    for j, v in vals:
+        reqs.append({"op": "embed", "q": q, "fn": "const", "val": j})
+        real.append(("const", j, v, lambda v=v: _real_embedded("const", lambda: op.const(v), "constant")))
+        if fut_init is not None:
+            reqs.append({"op": "embed", "q": q, "fn": "future_initializer", "val": j})
+            real.append(("future_initializer", j, v, lambda v=v: _real_embedded("future_initializer", lambda: fut_init(v), "initializer")))
+        if j["k"] == "array":
+            if g_init is not None:
+                reqs.append({"op": "embed", "q": q, "fn": "initializer", "val": j})
+                real.append(("initializer", j, v, lambda v=v: _real_embedded("initializer", lambda: g_init(v), "initializer")))
+            if g_args is not None:
+                reqs.append({"op": "embed", "q": q, "fn": "arg_default", "val": j})
+                real.append(("arg_default", j, v, lambda v=v: _real_embedded("arg_default", lambda: g_args(x=v)[0], "initializer")))
+    outs = ck.driver().ask_many("C10", reqs)
+    mism = unmod = 0
+    for (fn, j, v, run_real), m in zip(real, outs):
+        if "error" in m:
+            mism += 1
+            ck.broken("correspondence", "C10 embed (driver error)", f"{fn} {j}: {m}")
+            continue
+        if "unmodelled" in m:
+            unmod += 1
+            continue
+        r = run_real()
+        ck.count(("embed-corr", fn, j["k"], r[0], str(j.get("dtype", ""))))
+        bad = _cmp_embedded(m, r)
+        if bad:
+            mism += 1
+            if mism <= 3:
+                ck.broken("correspondence", "C10 const/initializer model vs real", f"{fn}({str(v)[:60]!r}): {bad}")
+    # constant(value_*=…): attribute + propagated value, over the attribute value universe
+    keys = {"value": "AttrTensor", "value_float": "AttrFloat32", "value_floats": "AttrFloat32s", "value_int": "AttrInt64",
+            "value_ints": "AttrInt64s", "value_string": "AttrString", "value_strings": "AttrStrings"}
+    uni = value_universe(ck.rng, ck.pick(20, 300))
+    creqs, creal = [], []
+    for key in keys:
+        for j, v in uni:
+            if j["k"] in ("none",):
+                continue  # None means "attribute not given"
+            creqs.append({"op": "constant", "q": q, "key": key, "val": j})
+            creal.append((key, j, v))
+    couts = ck.driver().ask_many("C10", creqs)
+    n_const = 0
+    for (key, j, v), m in zip(creal, couts):
+        if "error" in m:
+            mism += 1
+            ck.broken("correspondence", "C10 constant (driver error)", f"{key} {j}: {m}")
+            continue
+        if j["k"] in ("ndarray", "badarray", "sequence", "bytes") and key in ("value_floats", "value_ints", "value_strings"):
+            continue  # outside the model's domain (inDomain)
+        try:
+            var = op.constant(**{key: copy.copy(v) if isinstance(v, list) else v})
+            r = ("ok", var)
+        except Exception as e:  # noqa: BLE001
+            r = ("err", type(e).__name__)
+        n_const += 1
+        ck.count(("constant-corr", key, j["k"], r[0]))
+        bad = None
+        if r[0] == "err":
+            if "ok" in m and not m["prop_modelled"]:
+                pass  # value propagation of a `bytes` string attribute (numpy decodes it as ASCII): outside the model
+            elif m.get("err") != r[1]:
+                bad = f"real raises {r[1]}, model {m.get('err') or 'accepts'}"
+        elif "ok" not in m:
+            bad = f"real accepts, model raises {m.get('err')}"
+        elif m["prop_modelled"]:
+            try:
+                o = peek("Var._get_value", lambda: _obs_array(r[1]._get_value()))
+            except ValueError as e:  # "No propagated value associated with this Var."
+                o = UNOBS
+                bad = f"no propagated value ({e}), model {str(m['prop'])[:60]}"
+            mp = m["prop"]
+            if o is not UNOBS:
+                data = mp["words"] if mp["dtype"] != "str" else [list("".join(map(chr, s)).encode("utf-8")) for s in mp["strs"]]
+                t = r[1].type
+                if (mp["dtype"], mp["shape"]) != (canon_name(t.dtype), list(t.shape)):
+                    bad = f"Var.type: model {mp['dtype']}{mp['shape']} real {t}"
+                elif mp["dtype"] != o["dtype"] or mp["shape"] != o["shape"] or not (
+                        data == o["data"] if mp["dtype"] == "str" else same_words(mp["dtype"], data, o["data"])):
+                    bad = f"propagated: model {str(mp)[:80]} real {str(o)[:80]}"
+        if bad:
+            mism += 1
+            if mism <= 3:
+                ck.broken("correspondence", "C10 constant(value_*) model vs real", f"constant({key}={str(v)[:50]!r}): {bad}")
+    ck.cov["embed_correspondence"] = {"values": len(vals), "cases": len(reqs), "outside_model": unmod,
+                                      "constant_cases": n_const, "mismatches": mism}
 
 
 # ------------------------------------------------------------------- real capture sites (shared)
@@ -1070,7 +1337,7 @@ def run_capture_correspondence(ck, info):
         if row is None:
             ck.broken("correspondence", "C10 capture table", f"no row for {site.table_site}")
             continue
-        for _ in range(ck.pick(8, 80)):
+        for _ in range(ck.pick(8, 300)):
             content = gen_content(rng, site.kind)
             muts = gen_muts(rng, site.kind, content)
             try:
@@ -1101,8 +1368,54 @@ EMBED_ROUTES = ["constant", "const", "const_dtype", "const_list_dtype", "initial
                 "future_initializer_dtype", "arg_default", "tensor_attr", "attr_tensor_class"]
 
 
+def _py_decode(j):
+    if isinstance(j, dict):
+        return struct.unpack("<d", struct.pack("<Q", j["f"]))[0]
+    if isinstance(j, list):
+        return [_py_decode(x) for x in j]
+    return j
+
+
+def embed_py_case(case):
+    """const / _future.initializer on a bare Python value: the embedded tensor must be np.array(value)."""
+    import numpy as np
+
+    import spox.opset.ai.onnx.v17 as op
+
+    v = _py_decode(case["py"])
+    ref = np.array(v)
+    if case["route"] == "future_py":
+        f = _imp("spox._future", "initializer")
+        if f is None:
+            return [("unobservable", "spox._future.initializer is not there")]
+    try:
+        if case["route"] == "const_py":
+            var = op.const(v)
+            a = _first_attr_tensor(_build_bytes(var), "Constant", "value")
+            tensor = W.tensor(a["t"])
+        else:
+            var = f(v)
+            g = W.graph_parts(W.graph_of_model(_build_bytes(op.identity(var))))
+            tensor = g["initializers"][0]
+    except Exception as e:  # noqa: BLE001
+        return [("raises", f"{case['route']}({v!r}) raised {type(e).__name__}: {str(e)[:160]}")]
+    want = _obs_array(ref)
+    got = _obs_tensor(tensor)
+    probs = []
+    if not same_obs(got, want):
+        probs.append(("values", f"{case['route']}({v!r}) embedded {str(got)[:120]}, np.array gives {str(want)[:120]}"))
+    from spox import Tensor
+
+    wt = Tensor(ref.dtype, ref.shape)
+    if var.type != wt:
+        probs.append(("vartype", f"{case['route']}({v!r}): Var.type {var.type}, expected {wt}"))
+    return probs
+
+
 def embed_case(case):
     """Run one embedding on the real code and judge it against the array itself. -> [(key, what)]"""
+    if "py" in case:
+        return embed_py_case(case)
     import numpy as np
 
     import spox.opset.ai.onnx.v17 as op
@@ -1239,7 +1552,14 @@ def gen_embed_cases(ck):
             if dst in DT_INT + ["bool"] and src in FMT:
                 continue
             cases.append({"kind": "embed", "route": route, "arr": spec, "req_dtype": dst})
-    extra = ck.pick(400, 20000)
+    fb = lambda x: {"f": struct.unpack("<Q", struct.pack("<d", x))[0]}  # noqa: E731
+    pys = [1, -1, 0, 2**63 - 1, -2**63, 2**63, 2**64 - 1, True, False, fb(1.5), fb(-0.0), fb(float("nan")), fb(1e40), "ü", "", "a\x00b",
+           [1, 2], [1, fb(2.5)], [True, False], [True, 2], [0, 2**63], [2**63], ["a", "ü"], [], [[1, 2], [3, 4]], [[1], [fb(0.5)]],
+           [[True], [False]], [-1, 2**63]]
+    for v in pys:
+        for route in ("const_py", "future_py"):
+            cases.append({"kind": "embed", "route": route, "py": v, "arr": {"dtype": "py", "shape": []}})
+    extra = ck.pick(400, 60000)
     for _ in range(extra):
         d = rng.choice(DT_ALL)
         route = rng.choice(["constant", "const", "initializer", "future_initializer", "arg_default", "attr_tensor_class"])
@@ -1443,6 +1763,9 @@ def wrong_kind_cases():
         ("concat(x, axis=0)", "variadic", "Var", lambda: op.concat(x, axis=0)),
         ("concat([x, 1], axis=0)", "variadic", "list", lambda: op.concat([x, 1], axis=0)),
         ("concat(5, axis=0)", "variadic", "int", lambda: op.concat(5, axis=0)),
+        ("concat(generator with an int, axis=0)", "variadic", "generator", lambda: op.concat((v for v in [x, 1]), axis=0)),
+        ("max(iterator with a str)", "variadic", "iterator", lambda: op.max(iter([x, "a"]))),
+        ("concat(tuple with None, axis=0)", "variadic", "tuple", lambda: op.concat((x, None), axis=0)),
     ]
     if initializer is not None:
         calls += [("initializer(5)", "AttrTensor", "int", lambda: initializer(5)),
@@ -1485,6 +1808,8 @@ def run_oracle(ck):
                 UNOBSERVABLE.setdefault(f"route {case['route']}", what)
                 continue
             d = case.get("req_dtype") or case["arr"]["dtype"]
+            if "py" in case:
+                d = type(_py_decode(case["py"])).__name__
             ck.failure(f"embed:{case['route']}:{d}:{key}", f"{case['route']}: {what}", case)
     # F2 attribute kinds
     for i, (desc, build, exp) in enumerate(attr_kind_cases()):
@@ -1496,6 +1821,34 @@ def run_oracle(ck):
             bad = f"raised {type(e).__name__}: {str(e)[:150]}"
         if bad:
             ck.failure(f"attr-kind:{desc.split('(')[0]}:{exp['name']}", f"{desc}: {bad}", {"kind": "attr_kind", "index": i, "desc": desc})
+    # float attributes on boundary doubles: the embedded float32 must be the double rounded once (numpy is the reference)
+    import spox.opset.ai.onnx.v17 as _op
+    from spox import Tensor as _T, argument as _arg
+    import numpy as _np
+
+    _x = _arg(_T(_np.float32, (2,)))
+    fbits = boundary_doubles(rng, ck.pick(60, 6000))
+    for k in range(0, len(fbits), 8):
+        chunk = [struct.unpack("<d", struct.pack("<Q", b))[0] for b in fbits[k:k + 8]]
+        stats["attr_kind"] += 1
+        ck.count(("float-attr", k))
+        try:
+            y = _x
+            for v in chunk:
+                y = _op.leaky_relu(y, alpha=v)
+            z = _op.constant(value_floats=chunk)
+            g = W.graph_parts(W.graph_of_model(_build_bytes(_op.add(y, _op.cast(_op.reduce_sum(z, keepdims=False), to=_np.float32)), (_x,))))
+            alphas = [a["f"] for n in g["nodes"] if n["op_type"] == "LeakyRelu" for a in n["attrs"] if a["name"] == "alpha"]
+            floats = next(a["floats"] for n in g["nodes"] if n["op_type"] == "Constant" for a in n["attrs"] if a["name"] == "value_floats")
+        except Exception as e:  # noqa: BLE001
+            ck.failure("attr-float:raises", f"float attributes {chunk}: {type(e).__name__}: {str(e)[:120]}", {"kind": "attr_float", "bits": fbits[k:k + 8]})
+            continue
+        want = [f32_bits_of_double(v) for v in chunk]
+        for name, gotl in (("leaky_relu.alpha", alphas), ("constant.value_floats", floats)):
+            if not same_words("float32", gotl, want):
+                i = next((i for i, (a, b) in enumerate(zip(gotl, want)) if not same_words("float32", [a], [b])), 0)
+                ck.failure(f"attr-float:{name}", f"{name}={chunk[i]!r} embedded as {gotl[i]:#x}, the double rounded once to float32 is {want[i]:#x}",
+                           {"kind": "attr_float", "bits": [fbits[k + i]]})
     for i, (desc, build, d, shape, data) in enumerate(const_prop_cases()):
         stats["attr_kind"] += 1
         ck.count(("const-prop", desc))
@@ -1518,7 +1871,7 @@ def run_oracle(ck):
                        {"kind": "wrong_kind", "index": i, "desc": desc})
     # F4 captured at the call
     for site in sites():
-        for k in range(ck.pick(16, 600)):
+        for k in range(ck.pick(16, 2000)):
             content = gen_content(rng, site.kind)
             muts = gen_muts(rng, site.kind, content)
             early = k % 2 == 1
@@ -1573,6 +1926,8 @@ def run(ck: core.Check):
     q = platform_quietens()
     for facet, fn in (("fromArray/toArray", lambda: run_enc_correspondence(ck, q)),
                       ("Attr constructors", lambda: run_attr_correspondence(ck, q)),
+                      ("float rounding", lambda: run_float_correspondence(ck)),
+                      ("const/initializer/constant", lambda: run_embed_correspondence(ck, q)),
                       ("capture", lambda: run_capture_correspondence(ck, info) if info else None)):
         try:
             fn()
@@ -1622,6 +1977,25 @@ def replay(ck: core.Check, doc) -> bool:
             bad = f"raised {type(e).__name__}: {e}"
         print(f"{desc}: {bad or 'ok'}")
         return bool(bad)
+    if kind == "attr_float":
+        import numpy as np
+
+        import spox.opset.ai.onnx.v17 as op
+        from spox import Tensor, argument
+
+        x = argument(Tensor(np.float32, (2,)))
+        bad = False
+        for b in case["bits"]:
+            v = struct.unpack("<d", struct.pack("<Q", b))[0]
+            g = W.graph_parts(W.graph_of_model(_build_bytes(op.leaky_relu(x, alpha=v), (x,))))
+            got = g["nodes"][0]["attrs"][0]["f"]
+            z = W.graph_parts(W.graph_of_model(_build_bytes(op.constant(value_floats=[v]))))
+            got2 = z["nodes"][0]["attrs"][0]["floats"][0]
+            want = f32_bits_of_double(v)
+            ok = same_words("float32", [got], [want]) and same_words("float32", [got2], [want])
+            print(f"{v!r}: alpha {got:#x}, value_floats {got2:#x}, expected {want:#x}: {'ok' if ok else 'DIFFERENT'}")
+            bad = bad or not ok
+        return bad
     if kind == "const_prop":
         desc, build, d, shape, data = next(c for c in const_prop_cases() if c[0] == case["desc"])
         try:
